@@ -20,7 +20,7 @@ var knownPrivate = strings.Fields(`allocateDuringFilter allocateIP allocateInSub
  lockPod loop parsePodIndex parseReleasePolicy podRunning popularCache queryNodeSubnet releaseIP reserveIP resyncAllocatedIPs
  resyncPod runningAndUidMatch shouldRelease supportReserveIPPolicy syncCacheAfterCreate syncCacheAfterDel syncIP syncPodIP
  syncPodIPsIntoDB toFloatingIPInfo tryMerge unbind unbindDpPod unbindNoneDpPod unmarshalAttr updateConfigMap updateFloatingIP
- validate walkConfiguredIPRanges walkIPRanges panic len string int int32 int64 uint16 make append delete`)
+ validate walkConfiguredIPRanges walkIPRanges getLister replicasOfCustomResource panic len string int int32 int64 uint16 make append delete`)
 
 func newNormaliser(files ...*fg.Parsed) *Normaliser {
 	nz := &Normaliser{Funcs: map[string]*ast.FuncDecl{}, Known: map[string]bool{},
@@ -38,6 +38,7 @@ func newNormaliser(files ...*fg.Parsed) *Normaliser {
 			"ParseCIDR":               {"", "ipNet", "err"},
 			"GetReplicas":             {"replica", "err"},
 			"Get":                     {"obj", "err"},
+			"ForResource":             {"informer"},
 		},
 		RangeVars: map[string][2]string{
 			"ips":               {"", "ip"},
